@@ -2,7 +2,7 @@
 Model of the three affine-gap aligners of /repo/align:
 `NWAffine` (nw_affine_type.got), `SWAffine` (sw_affine_type.got), `FittedAffine`
 (fitted_affine_type.got) and of the `Align` wrappers (nw_affine.go, sw_affine.go,
-fitted_affine.go), as they are after the `fix:` commits F11, F12, K2b and K5.
+fitted_affine.go), as they are after the `fix:` commits F11, F12, K2b, K5, K1 and K3.
 
 Conventions
 * Letters are alphabet indices (`Int`, negative = not in the alphabet); the scoring matrix is
@@ -22,6 +22,17 @@ Conventions
   `aware = false` is the switch as it was before the repair (every `case` compared with
   `table[p][layer]` whatever the layer, so a numeric tie could move the path to another
   layer); it is kept for the recogniser of a regression and for the refutation witness.
+* Since the repair of K1 each gap layer of a cell is the `max3` of three predecessors: the
+  match layer and the other gap layer with `gapOpen`, the same gap layer without (Gotoh's
+  recurrences with all nine transitions), and the traceback switch has the two corresponding
+  `case`s: this is `cross = true`, the model of the code.  `cross = false` is the fill and the
+  switch before the repair (`max2`, no `up ↔ left` transition).
+* Since the repair of K3 `FittedAffine` takes its end from the best of the three layers of the
+  last column (`ends = true`, `fitEnd3`, the code); `ends = false` is the end selection before
+  the repair (match layer only, `fitEnd`).
+  The variants `cross = false` / `ends = false` are kept for the theorems about the class the
+  old fill explores, the refutation witnesses and the recognisers of a regression
+  (`nwAlignNoCross`, `swAlignNoCross`, `fitAlignLegacy`).
 Core only.
 -/
 import Biogo.Spec.Alignment
@@ -111,13 +122,22 @@ def fillRows (first : Bool → Cell → Nat → Cell) (f : Nat → Cell → Cell
 
 /-! ### NWAffine / FittedAffine recurrences (same inner loop) -/
 
+/-- one gap layer of a cell from the three layers of its predecessor cell: `pd` the match
+    layer, `ps` the same gap layer, `po` the other gap layer; `g` the gap score of the letter.
+    `cross = true` (the code): `max3(add(pd, open+g), add(ps, g), add(po, open+g))`;
+    `cross = false` (before the repair of K1): `max2(add(pd, open+g), add(ps, g))`. -/
+def gapLayer (cross : Bool) (gapOpen g : Int) (pd ps po : V) : V :=
+  if cross then max3 (vadd pd (gapOpen + g)) (vadd ps g) (vadd po (gapOpen + g))
+  else max2 (vadd pd (gapOpen + g)) (vadd ps g)
+
 /-- inner loop body of `NWAffine` and `FittedAffine`:
     `diag = max3(diag', up', left') + S[r][q]`,
-    `up = max2(add(diag↑, open+S[r][gap]), add(up↑, S[r][gap]))`, `left` alike. -/
-def nwCell (S : Matrix) (gapOpen : Int) (x : Nat) (pd pu lc : Cell) (y : Nat) : Cell :=
+    `up = max3(add(diag↑, open+S[r][gap]), add(up↑, S[r][gap]), add(left↑, open+S[r][gap]))`,
+    `left` alike. -/
+def nwCell (cross : Bool) (S : Matrix) (gapOpen : Int) (x : Nat) (pd pu lc : Cell) (y : Nat) : Cell :=
   { d := vadd (max3 pd.d pd.u pd.l) (S x y)
-    u := max2 (vadd pu.d (gapOpen + S x 0)) (vadd pu.u (S x 0))
-    l := max2 (vadd lc.d (gapOpen + S 0 y)) (vadd lc.l (S 0 y)) }
+    u := gapLayer cross gapOpen (S x 0) pu.d pu.u pu.l
+    l := gapLayer cross gapOpen (S 0 y) lc.d lc.l lc.u }
 
 /-- `table[j+2].left = table[j+1].left + S[gap][q[j+1]]` -/
 def row0Tail (S : Matrix) : V → List Nat → List Cell
@@ -141,21 +161,21 @@ def nwFirst (S : Matrix) (gapOpen : Int) (isFirst : Bool) (prevFirst : Cell) (x 
 /-- first column of `FittedAffine`: `{diag: −∞, up: 0 (zero value), left: −∞}` -/
 def fitFirst (_isFirst : Bool) (_prevFirst : Cell) (_x : Nat) : Cell := ⟨none, some 0, none⟩
 
-def nwRows (S : Matrix) (gapOpen : Int) (r q : List Nat) : List (List Cell) :=
+def nwRows (cross : Bool) (S : Matrix) (gapOpen : Int) (r q : List Nat) : List (List Cell) :=
   let r0 := nwRow0 S gapOpen q
-  r0 :: fillRows (nwFirst S gapOpen) (nwCell S gapOpen) q true r0 r
+  r0 :: fillRows (nwFirst S gapOpen) (nwCell cross S gapOpen) q true r0 r
 
 /-- the table of `NWAffine` after the fill -/
-def nwTable (S : Matrix) (gapOpen : Int) (r q : List Nat) : Table :=
-  mkTable (q.length + 1) (nwRows S gapOpen r q)
+def nwTable (cross : Bool) (S : Matrix) (gapOpen : Int) (r q : List Nat) : Table :=
+  mkTable (q.length + 1) (nwRows cross S gapOpen r q)
 
-def fitRows (S : Matrix) (gapOpen : Int) (r q : List Nat) : List (List Cell) :=
+def fitRows (cross : Bool) (S : Matrix) (gapOpen : Int) (r q : List Nat) : List (List Cell) :=
   let r0 := nwRow0 S gapOpen q
-  r0 :: fillRows fitFirst (nwCell S gapOpen) q true r0 r
+  r0 :: fillRows fitFirst (nwCell cross S gapOpen) q true r0 r
 
 /-- the table of `FittedAffine` after the fill -/
-def fitTable (S : Matrix) (gapOpen : Int) (r q : List Nat) : Table :=
-  mkTable (q.length + 1) (fitRows S gapOpen r q)
+def fitTable (cross : Bool) (S : Matrix) (gapOpen : Int) (r q : List Nat) : Table :=
+  mkTable (q.length + 1) (fitRows cross S gapOpen r q)
 
 /-! ### SWAffine recurrences -/
 
@@ -165,21 +185,21 @@ def clip0 (v : V) : V :=
   | none => some 0
 
 /-- inner loop body of `SWAffine` (plain `+`, no sentinel: the table is zero-initialised) -/
-def swCell (S : Matrix) (gapOpen : Int) (x : Nat) (pd pu lc : Cell) (y : Nat) : Cell :=
+def swCell (cross : Bool) (S : Matrix) (gapOpen : Int) (x : Nat) (pd pu lc : Cell) (y : Nat) : Cell :=
   let score := vadd (max3 pd.d pd.u pd.l) (S x y)
   { d := if vgt score (some 0) then score else some 0
-    u := clip0 (max2 (vadd pu.d (gapOpen + S x 0)) (vadd pu.u (S x 0)))
-    l := clip0 (max2 (vadd lc.d (gapOpen + S 0 y)) (vadd lc.l (S 0 y))) }
+    u := clip0 (gapLayer cross gapOpen (S x 0) pu.d pu.u pu.l)
+    l := clip0 (gapLayer cross gapOpen (S 0 y) lc.d lc.l lc.u) }
 
 def swFirst (_isFirst : Bool) (_prevFirst : Cell) (_x : Nat) : Cell := zeroCell
 
-def swRows (S : Matrix) (gapOpen : Int) (r q : List Nat) : List (List Cell) :=
+def swRows (cross : Bool) (S : Matrix) (gapOpen : Int) (r q : List Nat) : List (List Cell) :=
   let r0 := List.replicate (q.length + 1) zeroCell
-  r0 :: fillRows swFirst (swCell S gapOpen) q true r0 r
+  r0 :: fillRows swFirst (swCell cross S gapOpen) q true r0 r
 
 /-- the table of `SWAffine` after the fill -/
-def swTable (S : Matrix) (gapOpen : Int) (r q : List Nat) : Table :=
-  mkTable (q.length + 1) (swRows S gapOpen r q)
+def swTable (cross : Bool) (S : Matrix) (gapOpen : Int) (r q : List Nat) : Table :=
+  mkTable (q.length + 1) (swRows cross S gapOpen r q)
 
 /-- `maxS, maxI, maxJ` of `SWAffine` after the fill: the cells are visited in row-major order
     and a cell replaces the current best when `score > 0 && score >= maxS`
@@ -243,10 +263,12 @@ structure TB where
 
 /-- the `case` expressions of the traceback switch in source order:
     (move, layer of the predecessor cell, amount added to it).
-    NW/Fitted: up-extend, left-extend, up-open, left-open, diag from up / left / diag;
+    NW/Fitted: up-extend, left-extend, up-open, left-open, (since the repair of K1, `cross`:)
+    up-open from `left`, left-open from `up`, then diag from up / left / diag;
     SW: the same gaps, then diag from diag / up / left. -/
-def cands (sw : Bool) (S : Matrix) (gapOpen : Int) (x y : Nat) : List (Kind × Kind × Int) :=
+def cands (cross sw : Bool) (S : Matrix) (gapOpen : Int) (x y : Nat) : List (Kind × Kind × Int) :=
   [(.u, .u, S x 0), (.l, .l, S 0 y), (.u, .m, gapOpen + S x 0), (.l, .m, gapOpen + S 0 y)] ++
+    (if cross then [(.u, .l, gapOpen + S x 0), (.l, .u, gapOpen + S 0 y)] else []) ++
     (if sw then [(.m, .m, S x y), (.m, .u, S x y), (.m, .l, S x y)]
      else [(.m, .u, S x y), (.m, .l, S x y), (.m, .m, S x y)])
 
@@ -283,7 +305,7 @@ def caseHit (aware : Bool) (t : Table) (st : TB) (v : Int) (cd : Kind × Kind ×
     (vadd ((predOf t st.i st.j cd.1).get cd.2.1) cd.2.2 == some v)
 
 /-- `for i > 0 && j > 0 { switch … }`; `fuel` bounds the number of iterations (`i + j`). -/
-def tbLoop (aware sw : Bool) (t : Table) (S : Matrix) (gapOpen : Int) (r q : List Nat) (R C : Nat) :
+def tbLoop (aware cross sw : Bool) (t : Table) (S : Matrix) (gapOpen : Int) (r q : List Nat) (R C : Nat) :
     Nat → TB → Except Err TB
   | 0, st => .ok st
   | fuel + 1, st =>
@@ -294,27 +316,30 @@ def tbLoop (aware sw : Bool) (t : Table) (S : Matrix) (gapOpen : Int) (r q : Lis
     | none => .error (.panicNoPath st.i st.j)
     | some v =>
       if sw ∧ v = 0 then .ok st else
-      match (cands sw S gapOpen x y).find? (caseHit aware t st v) with
+      match (cands cross sw S gapOpen x y).find? (caseHit aware t st v) with
       | none => .error (.panicNoPath st.i st.j)
       | some (mv, pl, _) =>
         let pv := vget ((predOf t st.i st.j mv).get pl)
-        tbLoop aware sw t S gapOpen r q R C fuel (st.move (st.i = R ∧ st.j = C) mv pl v pv)
+        tbLoop aware cross sw t S gapOpen r q R C fuel (st.move (st.i = R ∧ st.j = C) mv pl v pv)
 
 def total (ps : List Pair) : Int := (ps.map (·.score)).sum
 
 /-! ### the three `alignType` bodies on legal, non-empty letters -/
 
+/-- the layer holding the best value of a cell: `best := t[0]; for i, s := range t[1:] { if s >
+    best { best, layer = s, i+1 } }` (`diag` unless a later layer is strictly larger) -/
+def bestLayer (e : Cell) : Kind :=
+  if vgt e.u e.d then (if vgt e.l e.u then .l else .u) else (if vgt e.l e.d then .l else .m)
+
 /-- `NWAffine.alignType` after the letter checks: fill, pick the best layer of the last cell
     (`diag` unless a later layer is strictly larger), trace back, append the leading gap. -/
-def nwAlignT (aware : Bool) (S : Matrix) (gapOpen : Int) (r q : List Nat) :
+def nwAlignT (aware cross : Bool) (S : Matrix) (gapOpen : Int) (r q : List Nat) :
     Except Err (List Pair × Bool) :=
   let R := r.length
   let C := q.length
-  let t := nwTable S gapOpen r q
-  let e := t.at R C
-  let layer : Kind := if vgt e.u e.d then (if vgt e.l e.u then .l else .u)
-                      else (if vgt e.l e.d then .l else .m)
-  match tbLoop aware false t S gapOpen r q R C (R + C)
+  let t := nwTable cross S gapOpen r q
+  let layer : Kind := bestLayer (t.at R C)
+  match tbLoop aware cross false t S gapOpen r q R C (R + C)
       { i := R, j := C, layer, last := .m, score := 0, maxI := R, maxJ := C, aln := [] } with
   | .error e => .error e
   | .ok st =>
@@ -325,40 +350,64 @@ def nwAlignT (aware : Bool) (S : Matrix) (gapOpen : Int) (r q : List Nat) :
     else .ok (st'.aln, st.tie)
 
 def nwAlign (S : Matrix) (gapOpen : Int) (r q : List Nat) : Except Err (List Pair) :=
-  (nwAlignT true S gapOpen r q).map (·.1)
+  (nwAlignT true true S gapOpen r q).map (·.1)
+
+/-- `NWAffine` before the repair of K1 (no `up ↔ left` transition), layer-aware traceback -/
+def nwAlignNoCross (S : Matrix) (gapOpen : Int) (r q : List Nat) : Except Err (List Pair) :=
+  (nwAlignT true false S gapOpen r q).map (·.1)
 
 /-- `SWAffine.alignType` after the letter checks -/
-def swAlignT (aware : Bool) (S : Matrix) (gapOpen : Int) (r q : List Nat) :
+def swAlignT (aware cross : Bool) (S : Matrix) (gapOpen : Int) (r q : List Nat) :
     Except Err (List Pair × Bool) :=
   let R := r.length
   let C := q.length
-  let t := swTable S gapOpen r q
-  let (_, mi, mj) := swBest (swRows S gapOpen r q)
-  match tbLoop aware true t S gapOpen r q R C (mi + mj)
+  let t := swTable cross S gapOpen r q
+  let (_, mi, mj) := swBest (swRows cross S gapOpen r q)
+  match tbLoop aware cross true t S gapOpen r q R C (mi + mj)
       { i := mi, j := mj, layer := .m, last := .m, score := 0, maxI := mi, maxJ := mj, aln := [] } with
   | .error e => .error e
   | .ok st => .ok (st.emit.aln, st.tie)
 
 def swAlign (S : Matrix) (gapOpen : Int) (r q : List Nat) : Except Err (List Pair) :=
-  (swAlignT true S gapOpen r q).map (·.1)
+  (swAlignT true true S gapOpen r q).map (·.1)
 
-/-- end row of `FittedAffine`: the last `y ≥ 1` maximising `table[y*c+c-1][diag]`
-    (`max := minInt; if v >= max { i = y; max = v }`) -/
+/-- `SWAffine` before the repair of K1 (no `up ↔ left` transition), layer-aware traceback -/
+def swAlignNoCross (S : Matrix) (gapOpen : Int) (r q : List Nat) : Except Err (List Pair) :=
+  (swAlignT true false S gapOpen r q).map (·.1)
+
+/-- end row of `FittedAffine` before the repair of K3: the last `y ≥ 1` maximising
+    `table[y*c+c-1][diag]` (`max := minInt; if v >= max { i = y; max = v }`) -/
 def fitEnd (t : Table) (C : Nat) : Nat → Nat → (Nat × V) → Nat
   | 0, _, best => best.1
   | n + 1, y, best =>
     let v := (t.at y C).d
     fitEnd t C n (y + 1) (if vgt best.2 v then best else (y, v))
 
-/-- `FittedAffine.alignType` after the checks -/
-def fitAlignT (aware : Bool) (S : Matrix) (gapOpen : Int) (r q : List Nat) :
+/-- end row and start layer of `FittedAffine` (since the repair of K3): the last `y ≥ 1`
+    maximising the best of the three layers of `table[y*c+c-1]`, and the layer holding it
+    (`v, l := t[diag], diag; for k, s := range t[1:] { if s > v { v, l = s, k+1 } };
+      if v >= max { i, layer = y, l; max = v }`) -/
+def fitEnd3 (t : Table) (C : Nat) : Nat → Nat → (Nat × Kind × V) → Nat × Kind
+  | 0, _, best => (best.1, best.2.1)
+  | n + 1, y, best =>
+    let e := t.at y C
+    let lay := bestLayer e
+    let v := e.get lay
+    fitEnd3 t C n (y + 1) (if vgt best.2.2 v then best else (y, lay, v))
+
+/-- `FittedAffine.alignType` after the checks.  `ends = true`: the end row and the start layer
+    are the best of the three layers of the last column (the code); `ends = false`: the match
+    layer only (before the repair of K3).  `last = layer`: the traceback starts in the run of
+    its start layer, so that no empty segment is emitted before a trailing gap. -/
+def fitAlignT (aware cross ends : Bool) (S : Matrix) (gapOpen : Int) (r q : List Nat) :
     Except Err (List Pair × Bool) :=
   let R := r.length
   let C := q.length
-  let t := fitTable S gapOpen r q
-  let i := fitEnd t C R 1 (0, none)
-  match tbLoop aware false t S gapOpen r q R C (i + C)
-      { i := i, j := C, layer := .m, last := .m, score := 0, maxI := i, maxJ := C, aln := [] } with
+  let t := fitTable cross S gapOpen r q
+  let start : Nat × Kind := if ends then fitEnd3 t C R 1 (0, .m, none) else (fitEnd t C R 1 (0, none), .m)
+  let i := start.1
+  match tbLoop aware cross false t S gapOpen r q R C (i + C)
+      { i := i, j := C, layer := start.2, last := start.2, score := 0, maxI := i, maxJ := C, aln := [] } with
   | .error e => .error e
   | .ok st =>
     -- the loop stopped in row 0 with query letters left: they are a leading gap (fix K2b)
@@ -366,7 +415,12 @@ def fitAlignT (aware : Bool) (S : Matrix) (gapOpen : Int) (r q : List Nat) :
     else .ok (st.emit.aln, st.tie)
 
 def fitAlign (S : Matrix) (gapOpen : Int) (r q : List Nat) : Except Err (List Pair) :=
-  (fitAlignT true S gapOpen r q).map (·.1)
+  (fitAlignT true true true S gapOpen r q).map (·.1)
+
+/-- `FittedAffine` before the repairs of K1 and K3 (no `up ↔ left` transition, end taken from
+    the match layer only), layer-aware traceback -/
+def fitAlignLegacy (S : Matrix) (gapOpen : Int) (r q : List Nat) : Except Err (List Pair) :=
+  (fitAlignT true false false S gapOpen r q).map (·.1)
 
 /-! ### argument validation (the `Align` wrappers and the head of `alignType`) -/
 
@@ -406,17 +460,26 @@ def letterCheck (w : Which) (r q : List Int) : Except Err Unit :=
       | some p => .error (.letterR p)
       | none => .ok ()
 
-/-- the three `alignType` bodies with the traceback switch of the given kind, and the ghost flag -/
+/-- the three `alignType` bodies with the traceback switch of the given kind (on the fill of
+    the code, `cross = true`, `ends = true`), and the ghost flag -/
 def alignT (aware : Bool) (w : Which) (S : Matrix) (gapOpen : Int) (r q : List Nat) :
     Except Err (List Pair × Bool) :=
   match w with
-  | .nw => nwAlignT aware S gapOpen r q
-  | .sw => swAlignT aware S gapOpen r q
-  | .fit => fitAlignT aware S gapOpen r q
+  | .nw => nwAlignT aware true S gapOpen r q
+  | .sw => swAlignT aware true S gapOpen r q
+  | .fit => fitAlignT aware true true S gapOpen r q
 
 /-- the pairs the traceback *before the repair of K5* (layer-blind switch) returns -/
 def legacyPairs (w : Which) (S : Matrix) (gapOpen : Int) (r q : List Nat) : Except Err (List Pair) :=
   (alignT false w S gapOpen r q).map (·.1)
+
+/-- the three aligners *before the repairs of K1 and K3* (fill without `up ↔ left` transitions,
+    FittedAffine ending in the match layer only), with the layer-aware traceback -/
+def legacyFillAlign (w : Which) (S : Matrix) (gapOpen : Int) (r q : List Nat) : Except Err (List Pair) :=
+  match w with
+  | .nw => nwAlignNoCross S gapOpen r q
+  | .sw => swAlignNoCross S gapOpen r q
+  | .fit => fitAlignLegacy S gapOpen r q
 
 /-- did the layer-blind traceback (before the repair of K5) take a `case` of another layer
     (ghost flag, `TB.tie`)?  The repaired traceback never does (`Proofs/TraceFaith`). -/
